@@ -111,7 +111,8 @@ Definition get_lindblad_operators (rb : rebase) (noise_type : string) (nm : nois
     if nm_hyperfine_nonzero nm then Err E_NOTIMPL
     else if dim <? 2 then Err E_INDEX
     else let c := nm_c_deph nm in
-         Ok [mset dim (mset dim (zeros dim) 0 0 c) 1 1 (ropp K c)]
+         (* dephasing[0,0] = c; dephasing[1,1] = -c; for level in range(2, dim): dephasing[level,level] = c *)
+         Ok [mbuild dim (fun a b => if a =? b then (if a =? 1 then ropp K c else c) else r0 K)]
   else if String.eqb noise_type "depolarizing" then
     if dim <? 2 then Err E_INDEX
     else let c := nm_c_depol nm in
